@@ -178,6 +178,7 @@ def _plan(tier):
             P.append(("molecules", dict(n=3 if q else 4, size=size, default=d), ("done",)))
     if not q:
         P.append(("reinsert", dict(n=5, k=3), ("done",)))
+    P.append(("reinsert", dict(n=4, k=2), (), "restored-exactly"))
     return P
 
 
